@@ -55,7 +55,7 @@ def policy_stream(profile, quick, thorough, corpus=None, seeds=3, extra=None):
 PROPS = {
     "C01": {
         "lean": ["Seccomp.Proofs.C01"],
-        "streams": [policy_stream("names", 1500, 30000, corpus="policy")],
+        "streams": [policy_stream("names", 1500, 15000, corpus="policy", seeds=2)],
         "trusted": CBPF_TRUST + ["x86_64/i386/arm/aarch64/x32 tables enter only through the correspondence (the theorems hold for every table)"],
         "assumptions": ["the model equals the code on the generated policies (exact instruction lists, all four table architectures, both byte orders); the theorem covers all policies of the model"],
     },
@@ -67,33 +67,33 @@ PROPS = {
     },
     "C03": {
         "lean": ["Seccomp.Proofs.C03"],
-        "streams": [policy_stream("conds", 1500, 30000, corpus="policy")],
+        "streams": [policy_stream("conds", 1500, 15000, corpus="policy", seeds=2)],
         "trusted": CBPF_TRUST,
         "assumptions": [],
     },
     "C04": {
         "lean": ["Seccomp.Proofs.C04"],
-        "streams": [policy_stream("boundary", 600, 10000, corpus="policy"), policy_stream("names", 400, 6000, corpus="policy"), policy_stream("long", 100, 2000, corpus="policy")],
+        "streams": [policy_stream("boundary", 600, 5000, corpus="policy", seeds=2), policy_stream("names", 400, 3000, corpus="policy", seeds=2), policy_stream("long", 100, 1000, corpus="policy", seeds=2)],
         "trusted": CBPF_TRUST,
         "assumptions": [],
     },
     "C05": {
         "lean": ["Seccomp.Proofs.C05"],
-        "streams": [policy_stream("mix", 500, 10000, corpus="policy"), policy_stream("defects", 500, 10000, corpus="policy")],
+        "streams": [policy_stream("mix", 500, 5000, corpus="policy", seeds=2), policy_stream("defects", 500, 5000, corpus="policy", seeds=2)],
         "trusted": CBPF_TRUST + ["port of the kernel's classic-BPF/seccomp checker (Model/Raw.lean), validated against the running kernel only"],
         "assumptions": [],
     },
     "C06": {
         "lean": ["Seccomp.Proofs.C06"],
-        "streams": [{"stream": "builder", "profile": "mix", "quick": 3000, "thorough": 100000, "thorough_seeds": 2, "corpus": "builder"},
-                    policy_stream("long", 200, 4000, corpus="policy")],
+        "streams": [{"stream": "builder", "profile": "mix", "quick": 3000, "thorough": 50000, "thorough_seeds": 2, "corpus": "builder"},
+                    policy_stream("long", 200, 2000, corpus="policy", seeds=2)],
         "trusted": CBPF_TRUST,
         "assumptions": [],
     },
     "C07": {
         "lean": ["Seccomp.Proofs.C07"],
-        "streams": [policy_stream("defects", 3000, 60000, corpus="policy"),
-                    policy_stream("limit", 48, 1200, seeds=2)],
+        "streams": [policy_stream("defects", 3000, 30000, corpus="policy", seeds=2),
+                    policy_stream("limit", 48, 600, seeds=2)],
         "trusted": ["Go panics are observed by recover() in the harness and reported as the reply PANIC (never produced by the model)"],
         "assumptions": ["the architecture-without-tables case is reached through arch.GetInfo (C12/C19), not through Policy.Assemble on this host"],
     },
